@@ -88,6 +88,7 @@ type patchSpec struct {
 	File    string `json:"file"`
 	Find    string `json:"find"`
 	Replace string `json:"replace"`
+	All     bool   `json:"all,omitempty"` // replace every occurrence (at least one)
 }
 
 var patchTmp string
@@ -119,10 +120,11 @@ func applyPatches(repoDir, rel, specFile string, ov map[string][]byte, realOf ma
 				return err
 			}
 		}
-		if n := strings.Count(string(src), sp.Find); n != 1 {
-			return fmt.Errorf("patch %s: %q occurs %d times in %s (want exactly 1)", specFile, sp.Find, n, virt)
+		n := strings.Count(string(src), sp.Find)
+		if (!sp.All && n != 1) || (sp.All && n < 1) {
+			return fmt.Errorf("patch %s: %q occurs %d times in %s", specFile, sp.Find, n, virt)
 		}
-		out := []byte(strings.Replace(string(src), sp.Find, sp.Replace, 1))
+		out := []byte(strings.ReplaceAll(string(src), sp.Find, sp.Replace))
 		ov[virt] = out
 		tmp := filepath.Join(patchTmp, fmt.Sprintf("%s_%d_%s", strings.ReplaceAll(rel, "/", "_"), i, sp.File))
 		if err := os.WriteFile(tmp, out, 0o644); err != nil {
